@@ -40,12 +40,12 @@ theorem input_conforming_id (defs : Defs) (fuel : Nat) (name : Name) (es : List 
   refine ⟨by simp [varCheck, hv], ?_, ?_⟩
   · intro t ht; simp [varCheck, hv, ht]
   · intro n p hp hpv
-    obtain ⟨f, hf, hid⟩ := fits_fuel defs fuel n p hp
+    obtain ⟨_, f, hf, hid⟩ := fits_fuel defs fuel n p hp
     simp [varCheck, hv, eval, hf, hid v hpv]
 
 /-- A value that does not conform becomes null — for simple types and collections of simple
 types; for the other kinds the code does the following: a referenced type delegates to the
-referenced definition (its own allowed values are not consulted); a component type yields null
+referenced definition and then applies its own allowed values; a component type yields null
 for a non-context or a context lacking a component, otherwise the context of the checked
 components (each non-conforming component nulled by its own check, other entries dropped),
 filtered by the allowed values; an input variable of a built-in type is null unless the value
@@ -53,7 +53,8 @@ is of that type; a missing entry or a non-context input is null. -/
 theorem check_nonconforming (defs : Defs) (fuel : Nat) :
     (∀ t av v, conforms defs fuel (.simple t av) v = false → check defs fuel (.simple t av) v = .null) ∧
     (∀ t av v, conforms defs fuel (.collSimple t av) v = false → check defs fuel (.collSimple t av) v = .null) ∧
-    (∀ n av v, check defs fuel (.referenced n av) v = ((evaluator defs fuel n).map (· v)).getD .null) ∧
+    (∀ n av v, check defs fuel (.referenced n av) v =
+      ((evaluator defs fuel n).map (fun f => checkAllowed (f v) av)).getD .null) ∧
     (∀ cs av es, check defs fuel (.component cs av) (.ctx es) =
       if cs.all (fun c => (ctxGet c.1 es).isSome) then
         checkAllowed (.ctx (chk (evaluator defs fuel) cs es [])) av
@@ -175,40 +176,50 @@ theorem classification_total :
     (∀ d, classify false false true d = some (if d then .collectionOfComponentType else .componentType)) ∧
     (∀ a b d, classify a b true d = none ∨ (a = false ∧ b = false)) := by decide
 
-/-
--- FULL STATEMENT (not provable of the current code, findings F21, F22):
+/-- The check is the specified projection `Spec.project` (the function the correspondence
+compares the implementation with): conforming values unchanged, others null — for a component
+type the non-conforming component only — where the allowed values of every definition count,
+also those of a definition that references another one (F21, repaired by 2093924), and a
+collection with an item that becomes null is null as a whole, also a collection of a referenced
+type (F22, repaired by 6db5092). -/
 theorem check_eq_spec (defs : Defs) (fuel : Nat) (t : ItemDef) (v : DTValue) :
-    check defs fuel t v = Spec.project defs fuel t v
-i.e. conforming values unchanged, others null — for a component type the non-conforming
-component only — where the allowed values of *every* definition count and a collection with an
-item that becomes null is null as a whole.
--/
-
-/-- Outside the two deviations (no referencing definition with allowed values, no collection of
-a referenced type anywhere in the tree and in the definitions) the check is the specified
-projection — the function the correspondence compares the implementation with. -/
-theorem check_eq_spec_partial (defs : Defs) (fuel : Nat) (t : ItemDef) (v : DTValue)
-    (hd : plainDefs defs = true) (ht : plain t = true) :
     check defs fuel t v = Spec.project defs fuel t v :=
-  checkWith_eq_project _ _ (agree_fuel defs hd fuel) t ht v
+  checkWith_eq_project _ _ (agree_fuel defs fuel) t v
 
-example : plainDefs exDefs = true ∧ plain (.referenced ['t', 'P'] none) = true := by decide
+/-- The specified projection leaves conforming values unchanged. -/
+theorem project_conforming_id (defs : Defs) (fuel : Nat) (t : ItemDef) (v : DTValue)
+    (h : conforms defs fuel t v = true) : Spec.project defs fuel t v = v := by
+  rw [← check_eq_spec]; exact check_conforming_id defs fuel t v h
 
-/-- F21: `tColor` refers to `tString` and restricts it to "red", "green"; "blue" passes. -/
+/-- A collection (of a simple or of a referenced type) with an item that does not conform —
+an item of another type, or one the referenced definition checks to null — is null as a whole. -/
+theorem collection_nonconforming (defs : Defs) (fuel : Nat) :
+    (∀ t av xs, (∃ x ∈ xs, t.accepts x = false) → check defs fuel (.collSimple t av) (.list xs) = .null) ∧
+    (∀ n av xs f, evaluator defs fuel n = some f → (∃ x ∈ xs, f x = .null) →
+      check defs fuel (.collReferenced n av) (.list xs) = .null) := by
+  constructor
+  · intro t av xs ⟨x, hx, hf⟩
+    have : xs.all t.accepts = false := by
+      rw [List.all_eq_false]; exact ⟨x, hx, by simp [hf]⟩
+    simp [check, checkWith, allAccept_eq, this]
+  · intro n av xs f hf ⟨x, hx, hn⟩
+    have : ((xs.map f).any fun y => decide (y = DTValue.null)) = true := by
+      rw [List.any_eq_true]; exact ⟨f x, List.mem_map.mpr ⟨x, hx, rfl⟩, by simp [hn]⟩
+    simp [check, checkWith, hf, refLoop_eq, this]
+
+/-- The old witnesses of F21 and F22: `tC` refers to `tS` (string) and restricts it to "red",
+"green"; a collection of `tS`. -/
 def colorDefs : Defs :=
   [(['t', 'S'], .simple .string none),
    (['t', 'C'], .referenced ['t', 'S'] (some (fun v => v = .str ['r', 'e', 'd'] || v = .str ['g', 'r', 'e', 'e', 'n'])))]
 
-theorem referenced_allowed_values_counterexample :
+example :
     conforms colorDefs 5 (.referenced ['t', 'C'] none) (.str ['b', 'l', 'u', 'e']) = false ∧
-    check colorDefs 5 (.referenced ['t', 'C'] none) (.str ['b', 'l', 'u', 'e']) = .str ['b', 'l', 'u', 'e'] ∧
-    Spec.project colorDefs 5 (.referenced ['t', 'C'] none) (.str ['b', 'l', 'u', 'e']) = .null := by decide
-
-/-- F22: a collection of `tS` (string) given `["a", 1]` yields `["a", null]`, while a
-collection of `string` given the same value yields null. -/
-theorem collection_referenced_counterexample :
-    check colorDefs 5 (.collReferenced ['t', 'S'] none) (.list [.str ['a'], .num 1]) = .list [.str ['a'], .null] ∧
+    check colorDefs 5 (.referenced ['t', 'C'] none) (.str ['b', 'l', 'u', 'e']) = .null ∧
+    check colorDefs 5 (.referenced ['t', 'C'] none) (.str ['r', 'e', 'd']) = .str ['r', 'e', 'd'] ∧
+    check colorDefs 5 (.collReferenced ['t', 'S'] none) (.list [.str ['a'], .num 1]) = .null ∧
     check colorDefs 5 (.collSimple .string none) (.list [.str ['a'], .num 1]) = .null ∧
-    Spec.project colorDefs 5 (.collReferenced ['t', 'S'] none) (.list [.str ['a'], .num 1]) = .null := by decide
+    check colorDefs 5 (.collReferenced ['t', 'S'] none) (.list [.str ['a'], .str ['b']]) =
+      .list [.str ['a'], .str ['b']] := by decide
 
 end Dmn.ID
